@@ -75,9 +75,15 @@ def run(res):
     with np.errstate(all='ignore'):
         for cname in LINKS:
             lk = getattr(PL, cname)()
-            for L in ([1.0] if cname != 'LogitLink' else [1.0, 2.0, 7.0, 1000.0]):
+            for L in ([1.0] if cname != 'LogitLink' else [1.0, 2.0, 7.0, 1000.0, None]):
+                if L is None:
+                    # a distribution object WITHOUT levels (any non-binomial family): the source reads getattr(dist, 'levels', 1)
+                    from pygam.distributions import NormalDist as _ND
+                    d, L = _ND(), 1.0
+                    res.count('logit link on a distribution without levels')
+                else:
+                    d = D(L)
                 mus, lps = gen_inputs(rng, cname, L, n)
-                d = D(L)
                 for m in mus:
                     v = float(lk.link(np.array([m]), d)[0])
                     g = float(lk.gradient(np.array([m]), d)[0])
